@@ -97,6 +97,9 @@ var scenarios = map[string][]scenario{
 
 // runScenarios executes the witnesses for a property first (corpus), as correspondence cases
 func runScenarios(c *Ctx, prop string) error {
+	if prop == "C27" || prop == "C36" {
+		scenarioF19(c)
+	}
 	for _, s := range scenarios[prop] {
 		before := c.nFail
 		h, reproduced, err := s.run(c)
